@@ -26,9 +26,18 @@ import (
 type cval struct {
 	from   string
 	closed atomic.Int32
+	// closeErr: closing this value reports an error (a connection whose peer has gone). That is the
+	// value's business: it is replaced and closed once all the same.
+	closeErr bool
 }
 
-func (c *cval) Close() error { c.closed.Add(1); return nil }
+func (c *cval) Close() error {
+	c.closed.Add(1)
+	if c.closeErr {
+		return errors.New("close: the peer has already gone")
+	}
+	return nil
+}
 func (c *cval) tag()         {}
 
 // The updater's type parameter is either the concrete pointer type or an INTERFACE type whose
@@ -92,6 +101,7 @@ type upd struct {
 	wantErr bool
 	built   []*cval
 	builds  int
+	errOpen bool // the last Get replaced a value whose Close reported an error: what Err says about that is left open
 }
 
 // an install or a Get that never returns (a notification that blocks while the store's lock is held,
@@ -169,7 +179,7 @@ func runC15(t *testing.T, c UpdaterCase) (*h.Violation, h.Info) {
 			if fails[string(b)] {
 				return nil, errors.New("builder rejects this value")
 			}
-			v := &cval{from: string(b)}
+			v := &cval{from: string(b), closeErr: (len(u.built)+len(b))%3 == 1}
 			u.built = append(u.built, v)
 			return v, nil
 		}
@@ -330,6 +340,9 @@ func runC15(t *testing.T, c UpdaterCase) (*h.Violation, h.Info) {
 				continue
 			}
 			u := ups[o.U%len(ups)]
+			if u.errOpen && !u.wantErr {
+				continue
+			}
 			if (u.u.Err() != nil) != u.wantErr {
 				return h.V("err-reports-build-failure", "step %d: Err() = %v, want failure=%v", i, u.u.Err(), u.wantErr), info
 			}
@@ -350,7 +363,7 @@ func runC15(t *testing.T, c UpdaterCase) (*h.Violation, h.Info) {
 					if u.wantErr {
 						info.Class("consecutive-failed-builds")
 					}
-					u.wantErr = true
+					u.wantErr, u.errOpen = true, false
 					if got != u.cur {
 						return h.V("failed-build-keeps-previous-value", "step %d: the builder failed but Get returned a different value (%q, previous %q)", i, got.from, u.cur.from), info
 					}
@@ -369,7 +382,11 @@ func runC15(t *testing.T, c UpdaterCase) (*h.Violation, h.Info) {
 					if got == nil || got.from != installed {
 						return h.V("get-returns-newest-installed", "step %d: Get returned a value built from %q, newest installed is %q", i, fromOf(got), installed), info
 					}
-					if u.u.Err() != nil {
+					u.errOpen = u.cur.closeErr
+					if u.cur.closeErr {
+						info.Class("closing-the-replaced-value-reported-an-error")
+					} else if u.u.Err() != nil {
+						// (when closing the replaced value failed, whether Err mentions it is left open)
 						return h.V("err-reports-build-failure", "step %d: Err() = %v after a successful build", i, u.u.Err()), info
 					}
 					if n := u.cur.closed.Load(); n != 1 {
